@@ -8,8 +8,8 @@
    * ALTER TABLE ADD COLUMN is a catalogue-only change (table.add_column pushes the column, no
      name check): stored records keep their old arity, and SimpleDecoder (src/sql/decoder.rs)
      recognises a record written under a shorter prefix of the column list and reads the missing
-     columns as NULL - whatever the column's DEFAULT (Model/SchemaEvolve.v is the byte-level
-     account of that recognition).  Abstractly: every stored row is padded with NULL;
+     columns as NULL - whatever the column's DEFAULT (it compares the record's
+     header length and total length with those of every prefix schema).  Abstractly: every stored row is padded with NULL;
    * ALTER TABLE DROP COLUMN (migrate_table_drop_column) finds the column with
      eq_ignore_ascii_case, rewrites EVERY B-tree entry - tombstones included - without the
      column under a fresh record header (wrap_record_for_insert: DELETE bit cleared), removes the
@@ -32,7 +32,10 @@ Open Scope Z_scope.
 Definition srow := (bool * row)%type.              (* (DELETE bit, values) *)
 (* imis = Some cs': the stored records were rewritten for the column list cs' while the
    catalogue still says icols (only the case-mismatch DROP COLUMN does this) *)
-Record itbl := mkI { icols : list col; irows : list srow; imis : option (list col) }.
+(* ishort: some stored record was written before the latest ADD COLUMN (it is shorter than the
+   catalogue's column list); only the evolution-aware decoder of full scans and of DROP COLUMN
+   reads such a record correctly *)
+Record itbl := mkI { icols : list col; irows : list srow; imis : option (list col); ishort : bool }.
 Record istate := mkIS { itabs : list (Z * itbl); iidx : list idx }.
 Definition i_empty : istate := mkIS [] [].
 
@@ -40,53 +43,54 @@ Definition live (rs : list srow) : list row := map snd (filter (fun p => negb (f
 Definition has_tomb (rs : list srow) : bool := existsb fst rs.
 
 Definition i_insert (r : row) (tb : itbl) : option itbl :=
-  if fits_row (icols tb) r then Some (mkI (icols tb) (irows tb ++ [(false, r)]) (imis tb)) else None.
+  if fits_row (icols tb) r then Some (mkI (icols tb) (irows tb ++ [(false, r)]) (imis tb) (ishort tb)) else None.
 Definition i_insert_one (c : Z) (v : val) (tb : itbl) : option itbl :=
   match find_col c (icols tb) with
   | Some i => if fits (col_ty i (icols tb)) v
-              then Some (mkI (icols tb) (irows tb ++ [(false, default_row (icols tb) i v)]) (imis tb)) else None
+              then Some (mkI (icols tb) (irows tb ++ [(false, default_row (icols tb) i v)]) (imis tb) (ishort tb)) else None
   | None => None
   end.
 Definition i_delete_eq (c : Z) (v : val) (tb : itbl) : option itbl :=
   match find_col c (icols tb) with
   | Some i => Some (mkI (icols tb)
                 (map (fun p : srow => if negb (fst p) && cell_matches i v (snd p) then (true, snd p) else p) (irows tb))
-                (imis tb))
+                (imis tb) (ishort tb))
   | None => None
   end.
 Definition i_delete_all (tb : itbl) : option itbl :=
-  Some (mkI (icols tb) (map (fun p : srow => (true, snd p)) (irows tb)) (imis tb)).
+  Some (mkI (icols tb) (map (fun p : srow => (true, snd p)) (irows tb)) (imis tb) (ishort tb)).
 Definition i_update_eq (sc : Z) (sv : val) (wc : Z) (wv : val) (tb : itbl) : option itbl :=
   match find_col sc (icols tb), find_col wc (icols tb) with
   | Some i, Some j =>
       if fits (col_ty i (icols tb)) sv
       then Some (mkI (icols tb)
              (map (fun p : srow => if cell_matches j wv (snd p) then (false, set_nth i sv (snd p)) else p) (irows tb))
-             (imis tb))
+             (imis tb) (ishort tb))
       else None
   | _, _ => None
   end.
 Definition i_update_all (sc : Z) (sv : val) (tb : itbl) : option itbl :=
   match find_col sc (icols tb) with
   | Some i => if fits (col_ty i (icols tb)) sv
-              then Some (mkI (icols tb) (map (fun p : srow => (false, set_nth i sv (snd p))) (irows tb)) (imis tb))
+              then Some (mkI (icols tb) (map (fun p : srow => (false, set_nth i sv (snd p))) (irows tb)) (imis tb) false)
               else None
   | None => None
   end.
 Definition i_add_col (c : col) (tb : itbl) : option itbl :=
   if negb (fits (cty c) (cdef c)) then None
-  else Some (mkI (icols tb ++ [c]) (map (fun p : srow => (fst p, snd p ++ [VN])) (irows tb)) (imis tb)).
+  else Some (mkI (icols tb ++ [c]) (map (fun p : srow => (fst p, snd p ++ [VN])) (irows tb)) (imis tb)
+                  (match irows tb with [] => ishort tb | _ => true end)).
 Definition i_drop_col (c : Z) (exact : bool) (tb : itbl) : option itbl :=
   match find_col c (icols tb) with
   | Some i =>
       let rs := map (fun p : srow => (false, remove_nth i (snd p))) (irows tb) in
-      if exact then Some (mkI (remove_nth i (icols tb)) rs (imis tb))
-      else Some (mkI (icols tb) rs (Some (remove_nth i (icols tb))))
+      if exact then Some (mkI (remove_nth i (icols tb)) rs (imis tb) false)
+      else Some (mkI (icols tb) rs (Some (remove_nth i (icols tb))) false)
   | None => None
   end.
 Definition i_rename_col (c n : Z) (tb : itbl) : option itbl :=
   match find_col c (icols tb) with
-  | Some i => Some (mkI (rename_at i n (icols tb)) (irows tb) (imis tb))
+  | Some i => Some (mkI (rename_at i n (icols tb)) (irows tb) (imis tb) (ishort tb))
   | None => None
   end.
 
@@ -107,7 +111,7 @@ Definition i_step (s : istate) (st : stmt) : istate * bool :=
       | None => match cs with
                 | [] => (s, false)                 (* does not parse *)
                 | _ => if nodup_names cs && forallb (fun c => fits (cty c) (cdef c)) cs
-                       then (mkIS (itabs s ++ [(t, mkI cs [] None)]) (iidx s), true) else (s, false)
+                       then (mkIS (itabs s ++ [(t, mkI cs [] None false)]) (iidx s), true) else (s, false)
                 end
       end
   | DropTable t =>
@@ -128,7 +132,7 @@ Definition i_step (s : istate) (st : stmt) : istate * bool :=
       | r => r
       end
   | RenameCol t c n => i_on t (i_rename_col c n) s
-  | Truncate t _ => i_on t (fun tb => Some (mkI (icols tb) [] (imis tb))) s
+  | Truncate t _ => i_on t (fun tb => Some (mkI (icols tb) [] (imis tb) false)) s
   | CreateIndex i t c =>
       match get t (itabs s) with
       | Some tb => if has_idx i (iidx s) then (s, false)
@@ -182,7 +186,7 @@ Fixpoint i_run (s : istate) (h : list stmt) : list (bool * list tobs) :=
 (* ------------------------------------------------------------------ recorded defect classes
    (known_findings.d/C21.json), as decidable conditions on (state before, statement): *)
 Definition tbl_of (s : istate) (t : Z) : itbl :=
-  match get t (itabs s) with Some tb => tb | None => mkI [] [] None end.
+  match get t (itabs s) with Some tb => tb | None => mkI [] [] None false end.
 Definition step_class (s : istate) (st : stmt) : Z :=
   match st with
   | AddCol t c =>
@@ -206,11 +210,14 @@ Definition step_class (s : istate) (st : stmt) : Z :=
       else 0
   | CreateIndex i t c =>
       match get t (itabs s) with
-      | Some tb => if negb (has_idx i (iidx s)) && negb (has_col c (icols tb)) then 8 else 0
+      | Some tb => if negb (has_idx i (iidx s)) && negb (has_col c (icols tb)) then 8
+                   else if ishort tb then 11 else 0
       | None => 0
       end
   | UpdateEq t _ _ _ _ | UpdateAll t _ _ =>
-      if has_tomb (irows (tbl_of s t)) then 5 else 0              (* F-C05-2 seen from here *)
+      if ishort (tbl_of s t) then 11                              (* short records read by a decoder that does not know them *)
+      else if has_tomb (irows (tbl_of s t)) then 5 else 0         (* F-C05-2 seen from here *)
+  | DeleteEq t _ _ | DeleteAll t => if ishort (tbl_of s t) then 11 else 0
   | _ => 0
   end.
 (* a table whose stored records no longer match its catalogue *)
